@@ -76,6 +76,25 @@ def setup(ns, ctx, cfg):
         else:
             raise ValueError(kind)
     ctx.model = None
+    if cfg.get("warm"):
+        # multi-step history on the SAME continuum and dissimilarity objects: an alignment is computed first (its MIP is only
+        # captured, not decoded), then the continuum is changed through the public API, then the alignment under test is computed
+        Segment = ns.Segment
+        extra = (ANN[0], Segment(core.const(1000), core.const(1005)), "c999")
+        if cfg["warm"] == "remove":
+            c.add(*extra)                      # present during the first computation, removed before the second
+        st.capture_only = True
+        try:
+            (c.get_best_soft_alignment if cfg.get("warm_mode", cfg.get("mode", "best")) == "soft" else c.get_best_alignment)(D)
+        except cpstub.CaptureDone:
+            pass
+        st.capture_only = False
+        del st.problems[:]
+        if cfg["warm"] == "remove":
+            c.remove(extra[0], ns.co.Unit(extra[1], extra[2]))
+        elif cfg["warm"] == "add-remove":
+            c.add(*extra)
+            c.remove(extra[0], ns.co.Unit(extra[1], extra[2]))
     E.update(c=c, info=info, D=D, pair=pair, inputs=inputs)
     ctx.notes["inputs"] = inputs
     ctx.notes["realize"] = lambda m: realize(E, m, cfg)
@@ -85,7 +104,7 @@ def setup(ns, ctx, cfg):
 def realize(E, m, cfg):
     """model -> inputs for the real build"""
     sizes = E["sizes"]
-    case = dict(kind="pipeline", sizes=list(sizes), mode=cfg.get("mode", "best"), dissim=E["kind"],
+    case = dict(kind="pipeline", warm=cfg.get("warm"), sizes=list(sizes), mode=cfg.get("mode", "best"), dissim=E["kind"],
                 backend=cfg.get("backend", "cbc"), de=common.frs(mval(m, E["de"])))
     units = []
     for (a, j), v in sorted(E["info"].items()):
@@ -179,7 +198,11 @@ def real_setup(case):
         idx += 1
     if kind == "abstract":
         nunits = sum(sizes)
-        cats = SortedSet(common.uid_label(k) for k in range(nunits))
+        labels = [common.uid_label(k) for k in range(nunits)]
+        if case.get("warm"):
+            labels.append("c999")           # the unit that exists only during the earlier computation (category index nunits)
+            nunits += 1
+        cats = SortedSet(labels)
         M = np.zeros((nunits, nunits), dtype=np.float32)
         P = {}
         for key, v in case["pairs"].items():
@@ -285,6 +308,21 @@ def _replay_pipeline(case):
     except Exception as ex:     # noqa: BLE001
         return dict(reproduced=True, detail="building the inputs raised " + repr(ex)[:300])
     soft = case.get("mode") == "soft"
+    if case.get("warm"):
+        import pygamma_agreement as pa
+        from pyannote.core import Segment
+        extra_u = pa.Unit(Segment(1000.0, 1005.0), "c999" if case.get("dissim") == "abstract" else "x")
+        try:
+            if case["warm"] == "remove":
+                c.add(ANN[0], extra_u.segment, extra_u.annotation)
+            (c.get_best_soft_alignment if soft else c.get_best_alignment)(D)
+            if case["warm"] == "remove":
+                c.remove(ANN[0], extra_u)
+            elif case["warm"] == "add-remove":
+                c.add(ANN[0], extra_u.segment, extra_u.annotation)
+                c.remove(ANN[0], extra_u)
+        except Exception as ex:     # noqa: BLE001
+            return dict(reproduced=True, detail="the preceding computation / edit raised " + repr(ex)[:300])
     try:
         A = c.get_best_soft_alignment(D) if soft else c.get_best_alignment(D)
     except BaseException as ex:    # noqa: BLE001
